@@ -6,7 +6,7 @@ import ast
 import re
 
 from ..cfg import cfg_of
-from ..core import AnalysisError, call_name, unparse, walk_no_nested
+from ..core import named_args, AnalysisError, call_name, unparse, walk_no_nested
 from ..packs import ecc, fwd, ord_pack
 from ..report import Ctx
 
@@ -49,7 +49,7 @@ def run(ctx: Ctx) -> None:
     gname = {v[0]: k for k, v in gated.items()}
     for call in [c for c in walk_no_nested(calc.node) if isinstance(c, ast.Call) and call_name(c) in ('BiogemeFunctionOutput', 'BiogemeDisaggregateFunctionOutput')]:
         agg = call_name(call) == 'BiogemeFunctionOutput'
-        kws = {k.arg: unparse(k.value) for k in call.keywords}
+        kws = named_args(call)
         for i, fld in enumerate(FIELDS):
             key = fld if agg else fld + 's'
             got = kws.get(key)
@@ -72,7 +72,7 @@ def run(ctx: Ctx) -> None:
     ok = bufs == rawb[1:]
     ctx.add('C02.R1', 'BIOGEME.calculate_likelihood_and_derivatives:buffers', ok, (f.file, un[0].lineno), f'buffers {bufs} are received back as {rawb[1:]}' if ok else f'buffers handed over as {bufs} but unpacked as {rawb[1:]}', str(bufs))
     for call in [c for c in walk_no_nested(f.node) if isinstance(c, ast.Call) and call_name(c) == 'BiogemeFunctionOutput']:
-        kws = {k.arg: unparse(k.value) for k in call.keywords}
+        kws = named_args(call)
         divs = set()
         for i, fld in enumerate(FIELDS):
             got = kws.get(fld, '')
@@ -95,7 +95,7 @@ def run(ctx: Ctx) -> None:
         want = [f'self.data.{x}{suffix}' for x in FIELDS]
         ctx.add('C02.R1', f'{cname}.__iter__', ys == want, it, 'tuple unpacking yields function, gradient, hessian, bhhh' if ys == want else f'unpacking order is {ys}', str(ys))
     ue = fo.classes['BiogemeDisaggregateFunctionOutput'].methods['unique_entry']
-    kws = {k.arg: unparse(k.value) for c in ast.walk(ue.node) if isinstance(c, ast.Call) and call_name(c) == 'BiogemeFunctionOutput' for k in c.keywords}
+    kws = {k: v for c in ast.walk(ue.node) if isinstance(c, ast.Call) and call_name(c) == 'BiogemeFunctionOutput' for k, v in named_args(c).items()}
     want = {'function': 'float(self.functions[0])', 'gradient': 'self.gradients[0] if self.gradients else None', 'hessian': 'self.hessians[0] if self.hessians else None', 'bhhh': 'self.bhhhs[0] if self.bhhhs else None'}
     okq = all(re.fullmatch(rf'(float\()?self\.{k}s\[0\]\)?( if self\.{k}s( is not None)? else None)?', v or '') for k, v in kws.items()) and set(kws) == set(FIELDS)
     ctx.add('C02.R1', 'BiogemeDisaggregateFunctionOutput.unique_entry', okq, ue, 'the single entry keeps each field under its own name' if okq else f'unique_entry: {kws}', str(sorted(kws.items())))
@@ -162,7 +162,7 @@ def run(ctx: Ctx) -> None:
     res = [unparse(n.targets[0]) for n in walk_no_nested(gv.node) if isinstance(n, ast.Assign) and isinstance(n.value, ast.Call) and call_name(n.value) == 'calculate_function_and_derivatives']
     ctx.need(len(res) == 1, 'get_value_and_derivatives stores the result of the engine evaluation')
     for c in named:
-        kw = {k.arg: unparse(k.value) for k in c.keywords}
+        kw = named_args(c)
         ok = kw == {'function_output': res[0], 'mapping': 'self.id_manager.free_betas.indices'}
         ctx.add('C02.R4', f'get_value_and_derivatives:{call_name(c)}', ok, (gv.file, c.lineno), 'names come from free_betas.indices' if ok else f'{call_name(c)}({kw})', str(sorted(kw.items())))
     ctx.floor('C02.R4', 5)
